@@ -881,7 +881,7 @@ def path_histories(ctx):
 
 
 def run(ctx):
-    ctx.check_proofs(["MPilot.Props.C20", "MPilot.Props.C20Path"])
+    ctx.check_proofs(["MPilot.Props.C20", "MPilot.Props.C20Path", "MPilot.Props.C20Num"])
     model = common.Model()
     tmp = common.tmpdir("mpv_c20_")
     os.makedirs(os.path.join(tmp, "sub"))
